@@ -48,17 +48,82 @@ class Machine(Stage):
         return res
 
 
+class RealGdb(Stage):
+    """message/destroy sequences on a generated C mock under the real gdb with the unmodified plugin: the
+    connection list it ends with must be the one the stand-in run (and the model) ends with"""
+    name = 'real-gdb'
+
+    def examples(self, tier):
+        return 6 if tier == 'quick' else 14 * 30
+
+    def gen(self, d, tier):
+        from .. import histgen
+        gens, ops, t = {}, [], 0
+        for _ in range(d.int(4, 24)):
+            if d.chance(0.25):
+                addr = d.int(0, 3)
+                gens.pop(addr, None)
+                ops.append(['destroy', addr, 1])
+                continue
+            addr = d.int(0, 2)
+            g = gens.get(addr)
+            if g is None:
+                g = gens[addr] = histgen.ConnGen(None, d.choice(['client', 'server']), dict(reuse=0.6, weights=WEIGHTS))
+            t += histgen.next_gap(d)
+            m = g.next(d)
+            m['conn'] = None
+            m['t_us'] = t
+            P = histgen.protocols()
+            decl = P[m['iface']].msg(m['name']) if m['iface'] in P and not (m['iface'] == 'wl_registry' and m['name'] == 'bind') else None
+            ops.append(['msg', addr, 1, gdbsim.closure_of_message(m, g.side, addr, decl)])
+        return dict(break_text=None, ops=ops)
+
+    def execute(self, case):
+        from .. import gdbreal, cli
+        res = Result()
+        steps = [dict(kind='destroy', conn=o[1]) if o[0] == 'destroy' else dict(o[3], conn=o[1]) for o in case['ops']]
+        with cli.Scratch() as sc:
+            r = gdbreal.run_steps(steps, sc)
+        if r['status'].startswith('skipped'):
+            res.label('real-gdb-' + r['status'][:40])
+            return res
+        if r['status'] != 'ok':
+            from ..runner import HarnessError
+            raise HarnessError(r['status'])
+        if len(r['records']) != len(steps) or 'Error while executing Python code' in r.get('gdb_output', ''):
+            res.bad('real-gdb:exception-out-of-stop()', '%d of %d steps reached the plugin; gdb said %r' % (len(r['records']), len(steps), r.get('gdb_output', '')[-400:]))
+            return res
+        ex = pm.PluginExec(None, False, True)
+        try:
+            for op in case['ops']:
+                ex.apply(op, res)
+            sim = [[c.name(), c.is_open(), len(c.messages())] for c in ex.drv.cm.connections()]
+            sim_out = [l for l in ex.drv.out.buffer.split('\n') if l.startswith('New ') or l.startswith('Closed ')]
+        finally:
+            ex.close()
+        real_out = [l for l in r['out'].split('\n') if l.startswith('New ') or l.startswith('Closed ')]
+        if sim != r['connections']:
+            res.bad('real-gdb:connection-list', 'real gdb ends with %r, stand-in with %r' % (r['connections'], sim))
+        if sim_out != real_out:
+            res.bad('real-gdb:notices', 'real gdb printed %r, stand-in %r' % (real_out, sim_out))
+        self_finish = Machine.finish
+        self_finish(self, case, res)
+        res.label('real-gdb-ran')
+        return res
+
+
 class C15(Prop):
     id = 'C15'
     rule = ('Hypothesis rule-based machine on the real Plugin + Controller + ConnectionManager over a gdb stand-in: rules = a generated '
             'message on one of 4 wl_connection addresses from one of 3 threads (through the plugin\'s breakpoint stop()), destruction of one of 5 '
             'addresses (known, already closed, never seen) with the address handed out again afterwards, user commands; after every step: one '
             'New notice exactly when an unknown address speaks (next name), one Closed notice exactly when a known one is destroyed, connection '
-            'list / open flags / roles / per-connection message counts equal the model, nothing raised out of stop(). non-trivial = history with a '
+            'list / open flags / roles / per-connection message counts equal the model, nothing raised out of stop(). real-gdb: message/destroy sequences compiled into a C mock of libwayland and run under the real '
+            'gdb with the unmodified plugin, final connection list and notices compared with the stand-in run. non-trivial = history with a '
             'destroy followed by reuse of the address, or a destroy of a never-seen address; distinct by SHA-1 of the op list.')
-    assumptions = ['fakegdb stand-in for the gdb module (cross-checked against real gdb on a generated mock in the thorough tier of C09)',
+    assumptions = ['fakegdb stand-in for the gdb module (cross-checked against real gdb 13 on a generated C mock: stage real-gdb here and in C09)',
                    'address reuse is modelled as a new wl_connection object with the same numeric address']
-    stages = [Machine()]
+    stages = [Machine(), RealGdb()]
 
 
 gdbsim.install()
